@@ -79,6 +79,8 @@ def run(tier, seed, replay=None):
     rep = Report("C17", tier, seed)
     rng = Rng(seed)
     proof_stage(rep, "C17")
+    # tie by translation (T5): MultiSubscription parsed from /repo/src is the composite machine (composites of up to three members)
+    proof_stage(rep, "C17src", limit=400)
     if not build_stage(rep):
         return rep.finish()
     cases = load_replay_case(replay) if replay else alg_cases(tier, rng) + timed_cases(tier, rng) + ileave2.cases(tier, rng, kinds=("hot",)) + pool_cases(tier)
